@@ -299,18 +299,20 @@ def HdrScan.add (st : HdrScan) (k v : List Nat) : HdrScan :=
   ⟨some k, if st.entries.any (·.1 == k) then st.entries.map (fun e => if e.1 == k then (e.1, e.2 ++ [v]) else e)
            else st.entries ++ [(k, [v])]⟩
 
-/-- the loop over header lines; `some entries` when `END` was found -/
-def hdrLoop : HdrScan → List (List Nat) → Except Err (Option HdrScan)
-  | _, [] => .ok none                                 -- Missing END
-  | st, raw :: rest =>
+/-- the loop over header lines; `some (state, bytes consumed incl. the END line)` when `END` was
+    found (`used` counts every line read so far with its `\n`) -/
+def hdrLoop : HdrScan → Nat → List (List Nat) → Except Err (Option (HdrScan × Nat))
+  | _, _, [] => .ok none                                 -- Missing END
+  | st, used, raw :: rest =>
+      let used' := used + raw.length + 1
       let line := strip raw
-      if line.isEmpty then hdrLoop st rest
-      else if line == [69, 78, 68] then .ok (some st)
+      if line.isEmpty then hdrLoop st used' rest
+      else if line == [69, 78, 68] then .ok (some (st, used'))
       else match splitColon line with
-        | some (k, v) => hdrLoop (st.add (strip k) (strip v)) rest
+        | some (k, v) => hdrLoop (st.add (strip k) (strip v)) used' rest
         | none => match st.key with
             | none => .error .header
-            | some k => hdrLoop (st.add k line) rest
+            | some k => hdrLoop (st.add k line) used' rest
 
 def tckMagic : List Nat := [109, 114, 116, 114, 105, 120, 32, 116, 114, 97, 99, 107, 115]   -- b'mrtrix tracks'
 
@@ -319,25 +321,28 @@ def joinNl : List (List Nat) → List Nat
   | [a] => a
   | a :: b :: r => a ++ 10 :: joinNl (b :: r)
 
-/-- `_offset_data` of `TckFile._read_header(bytes)` when the header has a `file` entry of the form
-    `. <digits>` (other outcomes: HeaderError / ValueError; a missing `file` entry — where the code
-    guesses the offset — is `Err.data` here and is not generated) -/
+/-- `int(hdr['file'].split()[1])` after the check `hdr['file'].split()[0] == '.'` -/
+def fileEntryOffset (v : List Nat) : Except Err Nat :=
+  match splitWs v with
+  | dot :: num :: _ =>
+      if dot != [46] then .error .header
+      else match parseDec num with
+        | some n => .ok n
+        | none => .error .value
+  | [dot] => if dot != [46] then .error .header else .error .short     -- IndexError
+  | [] => .error .short
+
+/-- `_offset_data` of `TckFile._read_header(bytes)`.  Without a `file` entry the code guesses
+    `f.tell()` after the END line (END as last line without `\n`: end of file).  The
+    `datatype` checks are not modelled (the streams always carry `datatype: Float32LE`). -/
 def tckHeaderOffset (bytes : List Nat) : Except Err Nat :=
   if bytes.take 13 != tckMagic then .error .header
-  else match hdrLoop ⟨none, []⟩ (splitLines (bytes.drop 14)) with
+  else match hdrLoop ⟨none, []⟩ 14 (splitLines (bytes.drop 14)) with
     | .error e => .error e
     | .ok none => .error .header
-    | .ok (some st) =>
+    | .ok (some (st, used)) =>
         match st.entries.lookup [102, 105, 108, 101] with
-        | none => .error .data
-        | some vals =>
-            match splitWs (joinNl vals) with
-            | dot :: num :: _ =>
-                if dot != [46] then .error .header
-                else match parseDec num with
-                  | some n => .ok n
-                  | none => .error .value
-            | [dot] => if dot != [46] then .error .header else .error .short     -- IndexError
-            | [] => .error .short
+        | none => .ok (min used bytes.length)
+        | some vals => fileEntryOffset (joinNl vals)
 
 end Nb.C16
